@@ -16,7 +16,7 @@ Python counterparts: `Variable.get_formula`, `Simulation._check_period_consisten
 namespace OFCore.RuleSys
 open OFCore OFCore.Engine
 
-inductive VType | int | float | bool | enum | date
+inductive VType | int | float | bool | enum | date | str
 deriving DecidableEq, Repr, Inhabited
 
 /-- period transforms available to a formula -/
@@ -123,6 +123,7 @@ def castTo (t : VType) (x : Val) : Val :=
   | .float => x
   | .enum => x
   | .date => x
+  | .str => x
 
 /-- one read `population(w, q, options)` elaborated to node level -/
 def elabRead (d : Decl) (w : Nat) (q : Except String Period) (add : Bool) : Expr Period :=
